@@ -1116,7 +1116,7 @@ def truth_scenarios_c09():
                                 qs += [f"nbrs {x} {y} {m} {ic} {r}" for m in (0, 1)] + [f"inbrs {x} {y} 1 {ic} {r}"]
                     qs += [f"clc 1 {x} {y}", f"iclc 1 {x} {y}"]
             allc = " ".join(f"{x} {y}" for x in range(w) for y in range(h))
-            qs += [f"clc {w * h} {allc}", f"iclc {w * h} {allc}", "dump"]
+            qs += [f"clc {w * h} {allc}", f"iclc {w * h} {allc}", "dump", "agents"]  # `agents`: tie only (`if not entry: continue` reads the truth value)
             lines += qs + ["truth 0 b 1", "truth 1 l 1", "truth 2 l 0", "truth 3 b 0", "truth 4 l 0", "move 4 2 2"] + qs[::3] + ["dump"]
             out.append(core.Scenario(lines, {"exhaustive": True}))
     return out
